@@ -174,7 +174,11 @@ func (st *wstate) checkClean(i int, l *scen.Lifetime, lf *model.Life, rep *scen.
 	if err != nil {
 		return st.hit(viol("summary-malformed", i, -1, "", []string{"C20"}, "%v\n%s", err, model.StripANSI(rep.CleanOut)))
 	}
-	if !anyFault {
+	// (injected faults do not excuse the totals: the summary counts the outcomes the calls
+	// signalled, whatever made them fail; only a lifetime that was killed has calls without
+	// an outcome)
+	_ = anyFault
+	if !rep.Killed {
 		want := map[string]int{"passed": lf.Tally[model.Passed], "failed": lf.Tally[model.Failed], "added": lf.Tally[model.Added], "updated": lf.Tally[model.Updated], "skipped": len(rep.SkipCalls)}
 		for _, k := range []string{"passed", "failed", "added", "updated", "skipped"} {
 			if sum.Tally[k] != want[k] {
